@@ -78,8 +78,46 @@ def json_cases(tier, rng, escalate):
                        nontrivial=bool(len(docs) >= 2 and any(d in JSON_BAD for d in docs[:-1])))
 
 
+WS_GOOD = [b"[1]", b'{"a":1}', b'"x y"', b"12", b"null", b"[[]]", b'"["', b"{}"]
+WS_BAD = [b"[1,]", b'{"a"}', b"[,]", b"nul", b"[1 2]"]
+
+
+def json_ws_cases(tier, rng, escalate):
+    """raw JSON with a SMALL limit and runs of whitespace between the documents: every document together with the
+    whitespace in front of it is safely within the limit, while a document plus the whitespace that FOLLOWS it may be
+    longer than the limit (that whitespace belongs to no frame: it must never count against the document before it)"""
+    thorough = tier == "thorough" or escalate
+    for _ in range(80 if thorough else 16):
+        limit = rng.choice([10, 12, 16])
+        n = rng.choice([1, 2, 3])
+        docs, stream = [], b""
+        for i in range(n):
+            d = rng.choice(WS_BAD if rng.random() < 0.3 else WS_GOOD)
+            room = limit - 1 - len(d)
+            lead = b"" if i == 0 else bytes(rng.choice(b" \n\t\r") for _ in range(rng.randrange(0, room + 1)))
+            if d[:1] not in b'[{"' and i > 0 and not lead:
+                lead = b" "          # a plain value needs a delimiter in front of it
+            stream += lead + d
+            if d[:1] not in b'[{"':
+                stream += b"\n"      # ... and one behind it
+            docs.append(d)
+        stream += bytes(rng.choice(b" \n") for _ in range(rng.choice([0, 0, 3, limit - 2])))
+        chunkings = [[stream], [stream[i:i + 1] for i in range(len(stream))]]
+        cuts = list(range(1, len(stream)))
+        for c in (cuts if thorough else rng.sample(cuts, min(len(cuts), 12))):
+            chunkings.append(sc.cuts_to_chunks(stream, [c]))
+        for _k in range(6 if thorough else 3):
+            chunkings.append(sc.cuts_to_chunks(stream, [rng.randrange(1, len(stream)) for _ in range(rng.randrange(2, 5))]))
+        for chunks in chunkings:
+            yield dict(input=sc2.make_simple_case(4, [limit], [b"jsonraw"], chunks) + [docs],
+                       tags=["kind4", "jsonraw", "whitespace-runs", f"limit{limit}",
+                             "has-bad-doc" if any(d in WS_BAD for d in docs) else "all-good"],
+                       nontrivial=bool(len(docs) >= 2))
+
+
 def cases(tier, rng, escalate):
     yield from json_cases(tier, rng, escalate)
+    yield from json_ws_cases(tier, rng, escalate)
     yield from sep_cases(tier, rng, escalate)
 
 
